@@ -214,6 +214,25 @@ def check_loads(src, info, expect_heads=None):
     return ch.HOLDS_NONTRIVIAL, None
 
 
+def make_body_c2(info):
+    """clause heads of ONE predicate written with different spellings of its name (quoted / unquoted): still one definition"""
+    spec = [('q0', 'bool', None), ('q1', 'bool', None), ('q2', 'bool', None), ('ar', 'int', '0 <= ar <= 1'), ('other', 'bool', None)]
+
+    def body(vals):
+        q = [True if v else False for v in vals[:3]]
+        ar = int_of(vals[3], 0, 1)
+        other = True if vals[4] else False
+        with NoTracing():
+            def head(i):
+                nm = "'colour'" if q[i] else 'colour'
+                return nm + ('(c%d)' % i if ar else '')
+            clauses = [head(0) + '.', ('shape(x).' if other else head(1) + '.'), head(2) + ' :- shape(x).']
+            heads = {('colour', ar)} | ({('shape', 1)} if other else set())
+            r, _ = check_loads('\n'.join(clauses) + '\n', info, heads)
+        return r
+    return spec, body
+
+
 def make_body_c(info):
     spec = [('n', 'int', '1 <= n <= 4')]
     for i in range(4):
@@ -351,6 +370,7 @@ def units(tier, seed):
                 for b in range(2):
                     us.append(dict(id='c.definitions.n4.h%d.a%d.b%d' % (h, a, b), kind='c', fixed={'n': 4, 'h0': h, 'a0': a, 'b0': b, 'h1': (h + 1) % 3},
                                    ob='C11.c', timeout=3000, weight=600, bounds='4 clauses, first clause fixed'))
+    us.append(dict(id='c2.spellings', kind='c2', fixed={}, ob='C11.c', timeout=300, weight=30, bounds='3 clauses of one predicate, each head quoted or not, arity 0..1, optionally interleaved with another predicate'))
     for k in KINDS:
         us.append(dict(id='d.size.%s' % k, kind='d', size_kind=k, fixed={}, ob='C11.d', timeout=300, weight=30, bounds='%s with size parameter 1..25' % k))
     return us
@@ -367,6 +387,8 @@ def build(u):
         spec, body = make_body_b(u['maxlen'], u['two'], info)
     elif k == 'b2':
         spec, body = make_body_b2(u['maxlen'], info)
+    elif k == 'c2':
+        spec, body = make_body_c2(info)
     elif k == 'c':
         spec, body = make_body_c(info)
     else:
